@@ -252,8 +252,9 @@ func (fv *FnVerifier) lockCheck(st *State, a *Addr, write bool, pos token.Pos) {
 // frames
 
 type frameTarget struct {
-	key string
-	ref string
+	key   string
+	ref   string
+	whole bool // the whole array may change at a call (links of a container/list: any element's next/prev/owner)
 }
 
 func (fv *FnVerifier) frameTargets(ce *CEnv, fc *FuncContract) []frameTarget {
@@ -278,7 +279,7 @@ func (fv *FnVerifier) frameTargetOf(ce *CEnv, e Expr) []frameTarget {
 		}
 		for i := 0; i < stt.NumFields(); i++ {
 			if stt.Field(i).Name() == x.Name {
-				return []frameTarget{{fv.fieldKey(p.Elem(), stt, i), base.S}}
+				return []frameTarget{{key: fv.fieldKey(p.Elem(), stt, i), ref: base.S}}
 			}
 		}
 		unsupported("assigns %s: no such field", exprString(e))
@@ -294,10 +295,14 @@ func (fv *FnVerifier) frameTargetOf(ce *CEnv, e Expr) []frameTarget {
 			if !ok {
 				unsupported("assigns elems(): slice expected")
 			}
-			return []frameTarget{{fv.elemsKey(sl.Elem()), "(sbase " + v.S + ")"}}
+			return []frameTarget{{key: fv.elemsKey(sl.Elem()), ref: "(sbase " + v.S + ")"}}
 		case "big":
 			fv.arrSort["big"] = "(Array Int Int)"
-			return []frameTarget{{"big", v.S}}
+			return []frameTarget{{key: "big", ref: v.S}}
+		case "listof":
+			// the links and length of container/list l (element Values are ordinary fields: Element.Value)
+			fv.listKeys()
+			return []frameTarget{{"list.next", v.S, true}, {"list.prev", v.S, true}, {"list.owner", v.S, true}, {"list.len", v.S, false}}
 		case "mapof":
 			mt, ok := v.T.Underlying().(*types.Map)
 			if !ok {
@@ -305,7 +310,7 @@ func (fv *FnVerifier) frameTargetOf(ce *CEnv, e Expr) []frameTarget {
 			}
 			var ts []frameTarget
 			for _, k := range fv.mapKeys(mt) {
-				ts = append(ts, frameTarget{k, v.S})
+				ts = append(ts, frameTarget{key: k, ref: v.S})
 			}
 			return ts
 		case "cell":
@@ -315,7 +320,7 @@ func (fv *FnVerifier) frameTargetOf(ce *CEnv, e Expr) []frameTarget {
 			}
 			var ts []frameTarget
 			for _, k := range fv.keysOfType(p.Elem()) {
-				ts = append(ts, frameTarget{k, v.S})
+				ts = append(ts, frameTarget{key: k, ref: v.S})
 			}
 			return ts
 		case "fields":
@@ -325,7 +330,7 @@ func (fv *FnVerifier) frameTargetOf(ce *CEnv, e Expr) []frameTarget {
 			}
 			var ts []frameTarget
 			for _, k := range fv.keysOfType(p.Elem()) {
-				ts = append(ts, frameTarget{k, v.S})
+				ts = append(ts, frameTarget{key: k, ref: v.S})
 			}
 			return ts
 		}
@@ -410,7 +415,13 @@ func (fv *FnVerifier) contractFor(fn *ssa.Function) *FuncContract {
 		}
 		key = n.Obj().Name() + "." + fn.Name()
 	}
-	return fv.eng.cs.Funcs[fn.Pkg.Pkg.Path()+"#"+key]
+	if fc := fv.eng.cs.Funcs[fn.Pkg.Pkg.Path()+"#"+key]; fc != nil {
+		return fc
+	}
+	if o, ok := fn.Object().(*types.Func); ok {
+		return fv.eng.externContract(o)
+	}
+	return nil
 }
 
 func (fv *FnVerifier) ifaceContract(recvT types.Type, method string) *FuncContract {
@@ -479,7 +490,11 @@ func (fv *FnVerifier) callWrites(c *ssa.CallCommon) (keys []string, all bool) {
 	// static resolution of the assigns targets with dummy arguments
 	tmp := &FnVerifier{eng: fv.eng, fn: fn, fc: fc, mode: fv.mode, q: NewQuery(fv.mode), env: map[ssa.Value]Val{}, arrSort: fv.arrSort, arrBase: fv.arrBase,
 		names: map[string]Val{}, nameCount: map[string]int{}, notes: map[string]bool{}, strLits: map[string]string{}, structSeen: map[string]bool{}, axiomsDone: map[string]bool{}}
-	tmp.q.sortSeen = map[string]bool{}
+	// declarations made while resolving the targets must land in the real query (struct sorts referenced by heap arrays)
+	tmp.q = fv.q
+	tmp.structSeen = fv.structSeen
+	tmp.strApps = map[string]string{}
+	tmp.matTypes = fv.matTypes
 	dst := &State{heap: map[string]string{}, locks: map[string]string{}, alloc: "a"}
 	names := map[string]Val{}
 	sig := fn.Signature
@@ -574,6 +589,14 @@ func (fv *FnVerifier) execCallCommon(c *ssa.CallCommon, instr *ssa.Call, st *Sta
 		args = append(args, fv.value(a, st))
 	}
 	fname := calleeName(fn)
+	// an explicit contract (including `extern`) takes precedence over built-in models and the drop list
+	if fc := fv.contractFor(fn); fc != nil {
+		var obj *types.Func
+		if o, ok := fn.Object().(*types.Func); ok {
+			obj = o
+		}
+		return fv.applyContract(fc, obj, fn.Signature, args, st, pos, name, nil)
+	}
 	if mdl, ok := models[fname]; ok {
 		return mdl.apply(fv, c, args, st, pos, name)
 	}
@@ -664,6 +687,11 @@ func (fv *FnVerifier) applyContract(fc *FuncContract, obj *types.Func, sig *type
 	if fc.AssignsOK {
 		for _, t := range fv.frameTargets(ce, fc) {
 			fv.frameCheckKey(st, t.key, t.ref, pos, "call:"+callee)
+			if t.whole {
+				fv.heapGet(st, t.key)
+				fv.heapHavoc(st, t.key)
+				continue
+			}
 			old := fv.heapGet(st, t.key)
 			srt := fv.arrSort[t.key]
 			// element sort of the array
